@@ -96,6 +96,34 @@ def build():
     if len(iap_init) != 1:
         raise leaf.LeafError("saturation_index: expected exactly one `*iap = ...`")
     leaves.append(deref_leaf(fsi, "ro_iap_init", iap_init[0], []))
+    # ---- write_mass_action_eqn_x (prep.cpp): the multipliers with which a REWRITE-flagged secondary master species is
+    # replaced by its rxn_secondary, and the e- this introduces by the element's redox-couple reaction (pe_x[...])
+    fw = leaf.load_function(os.path.join(P, "prep.cpp"), "write_mass_action_eqn_x")
+    calls = []
+
+    def wcalls(n):
+        if not isinstance(n, dict):
+            return
+        if n.get("kind") in ("CXXMemberCallExpr", "CallExpr"):
+            inner = n.get("inner", [])
+            if inner and inner[0].get("name") == "trxn_add" and len(inner) >= 3:
+                calls.append((leaf.render(inner[1]), inner[2]))
+        for x in n.get("inner", []) or []:
+            wcalls(x)
+    wcalls(fw.decl)
+    sec = [c for c in calls if c[0].endswith("rxn_secondary")]
+    cpl = [c for c in calls if not c[0].endswith("rxn_secondary")]
+    if len(sec) != 1 or not cpl:
+        raise leaf.LeafError("write_mass_action_eqn_x: expected one trxn_add of rxn_secondary and at least one of a couple reaction, found %d / %d" % (len(sec), len(cpl)))
+    wv = ["trxn.token[i].coef", "coef_e"]
+    for nm, (what, node) in [("wma_secondary_mult", sec[0])] + [("wma_couple_mult_%d" % k, c) for k, c in enumerate(cpl)]:
+        tr = leaf._Translator(fw, list(wv), {}, {}, False)
+        leaves.append(leaf.Leaf(nm, tr.tr(node), tr.vars, [what], [], fw, leaf.Site("argument", nm, node, frozenset(), (), 0, None, None, None)))
+    extra += "Definition wma_couple_mults : list rexpr := [%s].\n" % "; ".join("wma_couple_mult_%d" % k for k in range(len(cpl)))
+    ce = [s_ for s_ in fw.sites if s_.lhs == "coef_e"]
+    if len(ce) != 1:
+        raise leaf.LeafError("write_mass_action_eqn_x: expected exactly one assignment to coef_e")
+    extra += "Definition wma_coef_e_source : string := %s.\n" % cs(leaf.render(ce[0].node))
     # ---- convergence test of the ionic-strength row: residuals() and check_residuals(), default tolerance
     MU = "x[i]->type == 14"          # `#define MU 14` (global_structures.h), expanded by the preprocessor
     fr = leaf.load_function(os.path.join(P, "model.cpp"), "residuals")
